@@ -61,6 +61,10 @@ class _TruthRaises:
 
 def _gen_entry(rng):
   r = rng.random()
+  if r < 0.06:
+    # the context-manager object is created under another scope than the one it
+    # is entered in: the name is appended to the scope active at ENTRY
+    return {'kind': 'str', 'val': rng.choice(ALPHA), 'prebuilt': True}
   if r < 0.35:
     return {'kind': 'str', 'val': rng.choice(ALPHA)}
   if r < 0.5:
@@ -136,8 +140,20 @@ def gen(rng, tier):
   spawn_budget = 4 - nthreads
   for _ in range(nthreads):
     budget = [rng.randint(3, 25 if tier == 'thorough' else 12), spawn_budget]
-    threads.append({'ops': _gen_ops(rng, 0, budget, True, len(refs))})
-    spawn_budget = budget[1]
+    ops = _gen_ops(rng, 0, budget, True, len(refs))
+    if rng.random() < 0.15:
+      # The thread ends while a scope it entered is still open (a suspended
+      # generator holds the with-block): nothing of it may be visible to a
+      # thread that starts later.
+      ops.append({'op': 'leak', 'val': rng.choice(ALPHA)})
+      if rng.random() < 0.7:
+        # ... and some thread is started late, after others have finished
+        threads_late = {'op': 'spawn', 'body': [{'op': 'obs'}, {'op': 'call',
+                                                                'raises': False}]}
+        budget[1] -= 1
+        ops.insert(rng.randint(0, len(ops) - 1), threads_late)
+    threads.append({'ops': ops})
+    spawn_budget = max(budget[1], 0)
   r = rng.random()
   if nthreads == 1 or r < 0.08:
     pol = {'kind': 'seq'}
@@ -219,6 +235,7 @@ def _execute(case, policy, replay, hint):
                    'msg': msg})
 
   tls = {}   # tid -> per-thread harness state
+  leaked = []
 
   def cur_state():
     s = world.CURRENT_SCHED
@@ -365,6 +382,16 @@ def _execute(case, policy, replay, hint):
         else:
           guarded(st, lambda: cons()['x'](), body_scope, 'ref-callable', op,
                   cur)
+      elif kind == 'leak':
+        def _gen(val=op['val']):
+          with gin.config_scope(val):
+            yield
+        it = _gen()
+        next(it)
+        leaked.append(it)       # never finalised: the block stays open
+        st['leaked'] = True
+        check_scope(st, cur + [op['val']], 'after-leak')
+        cur = cur + [op['val']]
       elif kind == 'spawn':
         counters['spawn'] += 1
         body = op['body']
@@ -386,7 +413,12 @@ def _execute(case, policy, replay, hint):
         entered = False
         raised = None
         try:
-          with gin.config_scope(obj) as got_scope:
+          if op['entry'].get('prebuilt'):
+            with gin.config_scope(['zq']):
+              mgr = gin.config_scope(obj)
+          else:
+            mgr = gin.config_scope(obj)
+          with mgr as got_scope:
             entered = True
             if status == 'ok':
               if cur:
@@ -448,7 +480,8 @@ def _execute(case, policy, replay, hint):
       events[tid] = st['events']
       check_scope(st, [], 'thread-start')
       run_ops(ops, st, [])
-      check_scope(st, [], 'thread-end')
+      if not st.get('leaked'):
+        check_scope(st, [], 'thread-end')
     return program
 
   for ti, th in enumerate(case['threads']):
